@@ -1227,7 +1227,7 @@ func (x *vTransRun) evClose(c *vTransConn) {
 		// error and closed the link under Close's feet; the remaining will commands were never written (a race of the real code,
 		// an input of the model: `x c k`)
 		x.out.stat("observed:C10:wills-cut-short-at-close")
-		if os.Getenv("VERIF_TRANS_STRICT") != "" {
+		{ // a registered will that never reaches the leader: a violation of the statement seen through a non-leader (recorded finding)
 			x.report("C10:will-not-forwarded-at-close", fmt.Sprintf("connection %d registered %d will command(s); when it closed only %d of the %d frames Close had to write reached the leader: %s", c.idx, len(c.wills), len(fw), want, vTransJoin(fw)))
 		}
 		ob := "ok"
